@@ -18,12 +18,34 @@ def records(run):
 
 
 def run_variant(refs, queries, mode, extra=(), shuffle=None):
+    """one run of the program = one process, as on the command line: the run happens in a forked child, so that nothing a run leaves behind in
+    module- or class-level state (the checking process itself never runs the program) reaches the next run"""
+    import os
+    import pickle
+    from types import SimpleNamespace
     d = pl.make_workdir(refs, queries, shuffle)
     try:
-        run = pl.run_program(d, mode, list(extra), capture=False)
+        rfd, wfd = os.pipe()
+        pid = os.fork()
+        if pid == 0:
+            code = 0
+            try:
+                os.close(rfd)
+                run = pl.run_program(d, mode, list(extra), capture=False)
+                with os.fdopen(wfd, 'wb') as w:
+                    pickle.dump((run.files, run.error), w)
+            except BaseException:
+                code = 1
+            finally:
+                os._exit(code)
+        os.close(wfd)
+        with os.fdopen(rfd, 'rb') as r:
+            data = r.read()
+        os.waitpid(pid, 0)
+        files, error = pickle.loads(data) if data else ({}, 'the run ended without handing back a result')
     finally:
         pl.cleanup(d)
-    return run
+    return SimpleNamespace(files=files, error=error)
 
 
 def run_case(case):
@@ -41,6 +63,21 @@ def run_case(case):
         queries = queries + [(short_id, rp[i + 5] - rp[i] + 40, [p - rp[i] + 20 for p in rp[i:i + 6]])]
         truths = dict(truths)
         truths[short_id] = dict(kind='short', reference=refs[0][0], reverse=False)
+    # a TWIN placed in front of an alignable molecule: the same number of labels and the same first-to-last span, unrelated labels in between.
+    # Whatever is remembered per molecule under a key coarser than the molecule itself makes the molecule behind the twin inherit the twin's data
+    twin_id = None
+    sib = next((q for q in queries if len(q[2]) >= 12 and q[0] != short_id and truths[q[0]]['kind'] in ('exact', 'noisy', 'stretched')), None)
+    if sib is not None:
+        rt = random.Random(seed * 37 + 11)
+        lo, hi = sib[2][0], sib[2][-1]
+        inner = set()
+        while len(inner) < len(sib[2]) - 2:
+            inner.add(rt.randint(lo + 200, hi - 200))
+        twin_id = 951
+        at = queries.index(sib)
+        queries = queries[:at] + [(twin_id, sib[1], [lo] + sorted(inner) + [hi])] + queries[at:]
+        truths = dict(truths)
+        truths[twin_id] = dict(kind='twin', reference=None, reverse=None)
     bad = []
     try:
         with time_limit(600):
@@ -62,7 +99,7 @@ def run_case(case):
             sub = sorted(rnd.sample(allq, max(1, len(allq) // 2)))
             same(run_variant(refs, [q for q in queries if q[0] in sub], mode), set(sub), 'record_unchanged_when_other_queries_are_removed')
             # a query ALONE in the file: chimeric ones first (their second pass lands on a reference that, in the full run, other molecules hit too)
-            lone = ([q[0] for q in queries if truths[q[0]]['kind'] == 'chimeric'][:2] or [allq[0]]) + ([short_id] if short_id else [])
+            lone = ([q[0] for q in queries if truths[q[0]]['kind'] == 'chimeric'][:2] or [allq[0]]) + ([short_id] if short_id else []) + ([sib[0]] if twin_id else [])
             for qid in lone:
                 same(run_variant(refs, [q for q in queries if q[0] == qid], mode), {qid}, 'record_unchanged_when_the_query_is_alone_in_the_file')
             shuffled = list(queries)
@@ -130,7 +167,7 @@ def bounded(repo, tier, seed):
             key = f"{RUN}::monitor::C10::{clause}"
             viol.setdefault(key, dict(key=key, blame=RUN, input=dict(seed=case[0], mode=case[1]), observed=detail, required='C10 statement'))
     return result(tot, tot, "generated CMAP sets (2-3 references, 6-10 queries); the per-query records (all files of the mode) of a run on the full files are compared "
-                            "with runs on (a) a random half of the queries and one or two (chimeric) queries and one short molecule (six labels, < 45 kb) alone, (b) shuffled query order, (c) shuffled rows inside both CMAP files, (d) permuted reference "
+                            "with runs on (a) a random half of the queries and one or two (chimeric) queries and one short molecule (six labels, < 45 kb) and a molecule that follows its twin in the file (same label count and span, unrelated labels) alone, (b) shuffled query order, (c) shuffled rows inside both CMAP files, (d) permuted reference "
                             "order, (e) -qId/-rId selection versus physically restricted files, (f) a query file of more than 100000 shuffled rows with -qId of three molecules; evaluations = query x variant comparisons",
                   [dict(seed=cases[0][0], mode=cases[0][1])], list(viol.values())[:5], exhaustive=False, bounds=f"{n} sets x 5 variants")
 
